@@ -36,7 +36,9 @@ fn main() {
             _ => { i += 1; }
         }
     }
-    std::panic::set_hook(Box::new(|_| {}));
+    if std::env::var_os("SMV_PANIC_MSG").is_none() {
+        std::panic::set_hook(Box::new(|_| {}));
+    }
     let out = Arc::new(Mutex::new(std::io::BufWriter::with_capacity(1 << 20, std::io::stdout())));
     // watchdog
     {
